@@ -14,6 +14,7 @@ import subprocess
 import sys
 import tempfile
 import time
+import warnings
 
 import numpy
 
@@ -589,6 +590,52 @@ def omitted_settings_completion(chk, tier, rng):
                           "stands in for it)" % (k, type(e).__name__, str(e)[:80]), dict(user=user))
 
 
+def integer_spelling_twin(chk, rng):
+    """Configuration twin: the schema types the interpolation order (and NT, NTV) as JSON 'integer', which YAML/JSON spellings such as
+    3.0 satisfy.  A validated configuration written that way must run like the one written with 3."""
+    import cij.core.mode_gamma as mg
+    import cij.io.config as cfgmod
+    import cij.io.traditional.models as md
+    user = {"qha": {"input": "input01", "settings": {"NT": 6.0, "NTV": 31.0}}, "elast": {"input": "elast.dat", "settings": {"mode_gamma": {"interpolator": "lsq_poly", "order": 3.0}}}}
+    try:
+        cfgmod.validate_config(user)
+    except Exception as e:
+        chk.side_check("integer spelling twin: the float spelling is rejected by validation (%s)" % type(e).__name__, True)
+        return
+    nvol, nq, np_ = 8, 2, 6
+    vols = numpy.linspace(420, 300, nvol)
+    gam = numpy.array([[0.8 + 0.3 * k + 0.7 * j for k in range(np_)] for j in range(nq)])
+    A = numpy.array([[1e4 * (1 + k + 3 * j) for k in range(np_)] for j in range(nq)])
+    volumes = [md.VolumeData(0.0, vols[i], 0.0, [md.QPointData((0, 0, j), list(A[j] * vols[i] ** (-gam[j]))) for j in range(nq)]) for i in range(nvol)]
+    qin = md.QHAInputData(nvol, nq, np_, 1, 2, [((0, 0, j), 1.0) for j in range(nq)], volumes)
+    v = numpy.linspace(410, 310, 5)
+    bad = []
+    compared = 0
+    for method in ("lsq_poly", "spline", "lagrange", "krogh", "pchip", "akima"):
+        try:
+            with warnings.catch_warnings():
+                warnings.simplefilter("ignore")
+                a = mg.interpolate_modes(qin, v, method=method, order=3)
+        except Exception:
+            continue        # this method does not admit order 3 on this data: not the twin's subject
+        compared += 1
+        try:
+            with warnings.catch_warnings():
+                warnings.simplefilter("ignore")
+                b = mg.interpolate_modes(qin, v, method=method, order=3.0)
+            if any(not numpy.array_equal(x, y, equal_nan=True) for x, y in zip(a, b)):
+                bad.append("%s: order 3.0 gives different numbers than order 3" % method)
+        except Exception as e:
+            bad.append("%s: %s: %s" % (method, type(e).__name__, str(e)[:70]))
+    if bad:
+        chk.violation("integer-spelling:mode_gamma.order", "a validated configuration spelling the interpolation order as 3.0 (a JSON 'integer') does not run like "
+                      "order 3: %s" % "; ".join(bad[:3]), dict(user=user))
+    elif compared < 3:
+        chk.harness_error("integer spelling twin: only %d interpolators ran with order 3" % compared)
+    else:
+        chk.side_check("integer spelling twin: order 3.0 runs like order 3 for %d interpolators" % compared, True)
+
+
 def realness(chk, rng):
     """Concrete (all 15 keys): the eigen-frame the real class computes is a real array (dtype), as is the rotated strain."""
     import cij.core.phonon_contribution.shear as sh
@@ -630,6 +677,7 @@ def main():
     completion_on_degenerate_strains(chk, tier, rng)
     grid_settings_completion(chk, tier, rng)
     omitted_settings_completion(chk, tier, rng)
+    integer_spelling_twin(chk, rng)
     realness(chk, rng)
     chk.bound(omega_cm1=[W_LO, W_HI], T_K=[T_LO, T_HI], fp="IEEE binary64, round-nearest-even", solver_timeout_s=120)
     for f in EXP_FACTS:
